@@ -169,6 +169,12 @@ def check_window(ctx, mon_state, rng, width, channels, data, uc):
             r = verdict(AudioEnergyValidator(thr, width, channels, use_channel=uc), data)
             ctx.count("boundary_decisions_checked")
             if r != exp:
+                if name == "just-above":
+                    # one ulp above the value observed on one evaluation path: an implementation that reaches the same energy
+                    # by another route (another channel, another order of summation) may legitimately land one ulp higher -
+                    # and the real-valued energy is not decided at that scale.  Observed, not judged.
+                    ctx.count("one_ulp_above_observed_energy_judged_active")
+                    continue
                 ctx.violation(f"boundary-threshold-{name}-energy-wrong", {"case": case, "thr": thr, "impl_db": impl_db, "got": r})
                 return
 
